@@ -497,7 +497,7 @@ def legacy_term(sc, ob):
 # ------------------------------------------------------------------------------------------ correspondence
 def correspondence(ctx):
     rng = ctx.rng("corr")
-    ncopy, nleg = ctx.n(70, 700), ctx.n(24, 240)
+    ncopy, nleg = ctx.n(100, 900), ctx.n(32, 300)
     terms, keep, nt, dist = [], [], set(), {}
     for i in range(ncopy + nleg):
         sc = gen_copy_scenario(rng, i) if i < ncopy else gen_legacy(rng, i)
@@ -629,8 +629,15 @@ def _judge_copy(sc):
                 return _viol("copy:shared-state", "the deep copy of %s keeps the original's feedback sender" % a.name, sc)
     # a lone copied node with feedback reads its sender, which belongs to the model it was copied from: compare outputs only for the others
     if sc["kind"] == "node_fb":
-        if sc["how"] == "nodecopy" and not all(any(s is t for t in senders_of(root)) for s in senders_of(c)):
-            return _viol("copy:feedback-link", "Node.copy did not re-attach the original feedback sender", sc)
+        if sc["how"] == "nodecopy":
+            if not all(any(s is t for t in senders_of(root)) for s in senders_of(c)):
+                return _viol("copy:feedback-link", "Node.copy did not re-attach the original feedback sender", sc)
+            ok2, c2 = _try(lambda: root.copy(name=root.name + "_d%d" % next(_uid), copy_feedback=True))
+            if not ok2:
+                return _viol("copy:exception", "Node.copy(copy_feedback=True) raises: %s" % c2, sc)
+            for s, t in zip(senders_of(root), senders_of(c2)):
+                if s is t or shares(s, t) or not equal_contents(s, t):
+                    return _viol("copy:feedback-link", "Node.copy(copy_feedback=True) did not give the copy its own equal copy of the sender", sc)
         return None
     # ---- every operation the original supports works on the copy, with the same result
     X1, X2 = data(4, din), data(3, din)
@@ -763,7 +770,7 @@ def judge(case):
 
 def oracle(ctx, scale=1):
     rng = ctx.rng("oracle")
-    ncopy, nleg = ctx.n(56, 560) * scale, ctx.n(40, 400) * scale
+    ncopy, nleg = ctx.n(70, 700) * scale, ctx.n(48, 480) * scale
     out, n = [], 0
     for i in range(ncopy):
         sc = gen_oracle_copy(rng, i)
